@@ -37,6 +37,7 @@ def _const(node):
 # markers of the tests of process_node, in the order the model (Opt/Fold.v: decide / generic_fold) applies them
 MARKERS = [
     ("replace_input_with", "subst-inputs"),
+    ("is_ref", "reference-attribute"),           # optional: only in the repaired source
     ("_process_constant_node", "constant-value"),
     ("_do_inference", "shape-inference"),
     ("_opset_imports", "opset-import"),
@@ -55,6 +56,9 @@ MARKERS = [
     ("new_initializer", "initializer"),
     ("register_initializer", "register-initializer"),
 ]
+
+
+OPTIONAL_MARKERS = {"reference-attribute"}
 
 
 def _first_lines(fn):
@@ -124,7 +128,8 @@ def translate(repo):
     for ident, tag in MARKERS:
         lines = [ln for ln in occ.get(ident, []) if ln > last]
         if not lines:
-            order.append(("MISSING:" + tag, 0))
+            if tag not in OPTIONAL_MARKERS:
+                order.append(("MISSING:" + tag, 0))
             continue
         last = lines[0]
         order.append((tag, last))
@@ -210,6 +215,14 @@ def translate(repo):
     if len(neg_tests) not in (0, 2):
         raise Untranslatable("add evaluator: unexpected sign tests")
     txt += f"Definition add_rejects_negative_constant : bool := {'true' if neg_tests else 'false'}.\n"
+    # process_node: are nodes with an attribute given by reference (ir.Attr.is_ref()) kept, right after the input redirection?
+    skip_ref = any(t == "reference-attribute" for t, _ in order)
+    if skip_ref:
+        guards = [x for x in ast.walk(pn) if isinstance(x, ast.If) and "is_ref()" in ast.unparse(x.test)]
+        if len(guards) != 1 or ast.unparse(guards[0].test) != "any((attr.is_ref() for attr in node.attributes.values()))" \
+                or not (len(guards[0].body) == 1 and isinstance(guards[0].body[0], ast.Return) and ast.unparse(guards[0].body[0]) == "return None"):
+            raise Untranslatable("process_node: the reference-attribute guard is not the one the model knows")
+    txt += f"Definition skips_reference_attributes : bool := {'true' if skip_ref else 'false'}.\n"
     # concat: is a zero-length operand dropped only when its other dims are known to match a kept reference operand?
     ccf = next((n for n in tree.body if isinstance(n, ast.FunctionDef) and n.name == "concat"), None)
     if ccf is None:
@@ -245,7 +258,7 @@ def translate(repo):
         raise Untranslatable("identity evaluator: unexpected form of the forward propagation")
     txt += f"Definition identity_forwards_type : bool := {'true' if fwd_type else 'false'}.\n"
     return txt, {"registry": [(d, o, lo, hi) for d, o, lo, hi, _ in registry], "order": order, "returns": n_ret,
-                 "guard": guard, "clear_keeps": keep, "concat_fixed": concat_fixed}
+                 "guard": guard, "clear_keeps": keep, "concat_fixed": concat_fixed, "skip_ref": skip_ref}
 
 
 def regenerate(ctx):
